@@ -251,6 +251,10 @@ func (m *c29Model) step(in c29In, out c29Out) bool {
 		return true
 	case "readdir":
 		return out.OK && out.Names == strings.Join(m.children(in.Path), ",")
+	case "dsetattr":
+		return out.OK // permission bits of the shared directory: always possible for root, no effect on names
+	case "dgetattr":
+		return out.OK && out.Kind == 'd'
 	}
 	return true
 }
@@ -663,6 +667,29 @@ func (c *c29Client) run(ops []C29Op) {
 			if r.Status == 0 {
 				c.checkAttr("setattr", path, r.Wcc.After)
 			}
+		case "dsetattr", "dgetattr":
+			// the shared directory itself, through the handle every client holds
+			dir := c29Dirs[op.Dir%2]
+			call := simrt.Stamp()
+			if op.Op == "dsetattr" {
+				r, err := c.cl.Setattr(c.dirs[op.Dir%2], nfsclient.Sattr3{Mode: u32p([]uint32{0o755, 0o750, 0o711}[op.Name%3])})
+				if err != nil {
+					c.noReply("dsetattr", dir, err)
+					continue
+				}
+				c.rec(c29In{Op: "dsetattr", Path: dir, Size: -1}, c29Out{OK: r.Status == 0, Status: r.Status}, call)
+			} else {
+				r, err := c.cl.Getattr(c.dirs[op.Dir%2])
+				if err != nil {
+					c.noReply("dgetattr", dir, err)
+					continue
+				}
+				out := c29Out{OK: r.Status == 0, Status: r.Status}
+				if r.Status == 0 && r.Attr != nil {
+					out.Kind = kindOf(r.Attr.Type)
+				}
+				c.rec(c29In{Op: "dgetattr", Path: dir, Size: -1}, out, call)
+			}
 		case "readdir":
 			dir := c29Dirs[op.Dir%2]
 			call := simrt.Stamp()
@@ -959,7 +986,13 @@ func genC29(r *simrt.Rand, tier string) any {
 			if r.Pct(60) {
 				op.Dir, op.Name = 0, 0 // the pre-existing / most contended name
 			}
-			switch r.Pick([]int{16, 6, 4, 8, 3, 8, 12, 10, 8, 6, 6, 13, 8}) {
+			switch r.Pick([]int{16, 6, 4, 8, 3, 8, 12, 10, 8, 6, 6, 13, 8, 5, 3}) {
+			case 13:
+				op.Op = "dsetattr"
+				op.Dir = r.Int(2)
+			case 14:
+				op.Op = "dgetattr"
+				op.Dir = r.Int(2)
 			case 0:
 				op.Op = "create"
 			case 1:
@@ -1051,7 +1084,7 @@ func shrinkC29(scAny any) []any {
 
 func init() {
 	Register(&Prop{ID: "C29", Level: "exploration", Race: true,
-		Rule: "one case = 2-4 clients on their own connections issuing 2-5 requests each (<= 14 in total) from CREATE/MKDIR/SYMLINK/REMOVE/RMDIR/RENAME/WRITE/READ/LOOKUP/GETATTR/SETATTR/READDIR on their own names (3 per client) in two shared directories through shared directory handles, payloads unique per write, 0-2 backend calls delayed by 1 us-20 ms, 1-4 workers, every lock/channel/select/network/backend interleaving decided by the seeded scheduler (random, PCT, sticky), also built with -race; mode A (60%): caches at minimal TTL/size: the invoke/return history (stamped with scheduler event numbers) is checked with porcupine against a path-based specification of the twelve procedures (status success/failure, kind, size, mode, data, eof, complete listing); mode B (40%): caches on with 1 h TTLs plus cross-client LOOKUP/GETATTR of other clients' names: every attribute block, READ payload and listing in a reply must be one the backend object really had at some instant (history recorded atomically at every mutating backend call), and a failed lookup needs an instant of absence; both modes: every request answered, no panic, no deadlock (client blocked at the horizon), and afterwards every unexpired attribute-cache entry, directory-cache listing and the handle table (bijection of ids and paths) agree with the backend; non-trivial = at least 4 recorded operations from at least 2 clients; distinct by event digest; linearizability time-outs (10 s) are counted, never reported",
+		Rule: "one case = 2-4 clients on their own connections issuing 2-5 requests each (<= 14 in total) from CREATE/MKDIR/SYMLINK/REMOVE/RMDIR/RENAME/WRITE/READ/LOOKUP/GETATTR/SETATTR/READDIR on their own names (3 per client) in two shared directories through shared directory handles, plus SETATTR(mode)/GETATTR of the shared directories themselves, payloads unique per write, 0-2 backend calls delayed by 1 us-20 ms, 1-4 workers, every lock/channel/select/network/backend interleaving decided by the seeded scheduler (random, PCT, sticky), also built with -race; mode A (60%): caches at minimal TTL/size: the invoke/return history (stamped with scheduler event numbers) is checked with porcupine against a path-based specification of the twelve procedures (status success/failure, kind, size, mode, data, eof, complete listing); mode B (40%): caches on with 1 h TTLs plus cross-client LOOKUP/GETATTR of other clients' names: every attribute block, READ payload and listing in a reply must be one the backend object really had at some instant (history recorded atomically at every mutating backend call), and a failed lookup needs an instant of absence; both modes: every request answered, no panic, no deadlock (client blocked at the horizon), and afterwards every unexpired attribute-cache entry, directory-cache listing and the handle table (bijection of ids and paths) agree with the backend; non-trivial = at least 4 recorded operations from at least 2 clients; distinct by event digest; linearizability time-outs (10 s) are counted, never reported",
 		Gen:  genC29, New: func() any { return &C29Scn{} }, Run: runC29, Shrink: shrinkC29,
 		Real: seqReal, Stubbed: seqStubbed})
 }
